@@ -389,9 +389,10 @@ class _Scratch:
             self.created.specs.append(op["spec"])
 
 
-def gen_history(rng, ngrow, cap, favourite=None, pobs=.8, trans=True, become=0.0, init=.25):
+def gen_history(rng, ngrow, cap, favourite=None, pobs=.8, trans=True, become=0.0, init=.25, kinds=None):
     """growth steps with observations interleaved; returns the steps and, for every growth step, the length of the
     prefix that ends right after it (the points at which a suite judges one more observation).
+    kinds: restriction of the growth kinds (default: all of GROW_KINDS);
     favourite: an observation (or a function n -> observation) repeated along the way with probability 1/2 —
     the judged observation of the suite, so that 'observe, grow, observe the same way' happens in most histories"""
     S = _Scratch()
@@ -409,7 +410,7 @@ def gen_history(rng, ngrow, cap, favourite=None, pobs=.8, trans=True, become=0.0
             if promised(op, n) > cap:
                 op = gen_grow(rng, S.F, S.created, cap)
         else:
-            op = gen_grow(rng, S.F, S.created, cap)
+            op = gen_grow(rng, S.F, S.created, cap, kind=rng.choice(kinds) if kinds else None)
         steps.append(op)
         S.apply(op)
         cuts.append(len(steps))
